@@ -31,8 +31,13 @@ def worker(job):
                 st["agent_err"] = req.err
                 return None
             m = st["mode"]
+            st["prev_req"], st["cur_req"] = st.get("cur_req"), req
             if m == "silent":
                 return None
+            if m == "stale_report_then_ok":
+                # the Report that answered the PREVIOUS (timed-out) request arrives late, ahead of this request's Response
+                late = agent.report(st["prev_req"], rigp.REPORT_WRONG_DIGEST, flags=0, mac="empty", encrypt=False) if st.get("prev_req") is not None else None
+                return ([late] if late else []) + [agent.reply(req, st["vbs"])]
             if m == "late_stray_then_exc":
                 # a non-matching datagram late in the wait, then a reply that maps to an exception
                 stray = agent.reply(req, [B.enc_varbind(REQ, B.enc_int(1))], request_id=(req.request_id + 1) & 0x7FFFFFFF)
@@ -92,7 +97,16 @@ def worker(job):
                 st.update(mode="ok", vbs=[], T=T)
                 hd.call("open")
                 steps = []
-                for kind in ("nsi", "many", "report" if cfg.version == "v3" else "nso"):
+                for kind in ("nsi", "many", "report" if cfg.version == "v3" else "nso") + (("stale_report",) if cfg.version == "v3" else ()):
+                    if kind == "stale_report":
+                        st.update(mode="silent")
+                        o1 = hd.call("get", B.oid_text(REQ))
+                        serial = 7000 + ci * 100 + attempt * 10 + len(steps)
+                        st.update(mode="stale_report_then_ok", vbs=[B.enc_varbind(REQ, B.enc_int(serial))])
+                        o2 = hd.call(op, B.oid_text(REQ)) if op == "get" else hd.call("get_many", [B.oid_text(REQ)])
+                        want = ("ok", serial) if op == "get" else ("ok", {B.oid_text(REQ): serial})
+                        steps.append((kind, o1[0] if o1[0] == "ok" else o1[1]["cls"], o2 == want, repr(o2)[:80]))
+                        continue
                     if kind == "many":
                         st.update(mode="late_stray_then_exc", vbs=[B.enc_varbind(REQ, B.enc_int(1)), B.enc_varbind(REQ + (1,), B.enc_int(2))])
                     elif kind == "report":
